@@ -52,6 +52,16 @@ def is_skipped(var, skip):
     return any(s in (var, f"{var}_log_prob", f"{var}_var_value") or ALIASES.get(s) == var for s in skip)
 
 
+def h_uniform():
+    """a non-Gaussian root: a ~ Uniform(low, high) (drawn as low + (high - low) u), y ~ N(a, scale)"""
+    import liesel.model as lsl
+    h = _hp(a_low=-1.0, a_high=2.0, y_scale=0.5)
+    a = lsl.Var(0.3, lsl.Dist(tfd().Uniform, low=h["a_low"], high=h["a_high"]), name="a")
+    y = lsl.Var(jnp.zeros(2), lsl.Dist(tfd().Normal, loc=a, scale=h["y_scale"]), name="y")
+    spec = {"a": ((), lambda v: v["a_low"], lambda v: v["a_high"] - v["a_low"], "uniform"), "y": ((2,), lambda v: v["a"], lambda v: v["y_scale"])}
+    return lsl.GraphBuilder().add(y).build_model(), spec, ["a", "y"]
+
+
 def h_calc():
     import liesel.model as lsl
     h = _hp(mu_loc=3.0, mu_scale=2.0, y_scale=0.5)
@@ -99,7 +109,7 @@ def h_twolevel():
     return lsl.GraphBuilder().add(c).build_model(), spec, ["a", "b", "c"]
 
 
-FAMILY = {"direct": h_direct, "user-named dist nodes": h_named, "via-calc": h_calc, "diamond": h_diamond, "per_obs=False": h_perobs, "two-level+matrix": h_twolevel}
+FAMILY = {"direct": h_direct, "uniform root": h_uniform, "user-named dist nodes": h_named, "via-calc": h_calc, "diamond": h_diamond, "per_obs=False": h_perobs, "two-level+matrix": h_twolevel}
 
 
 def scenario(chk, hname, auto, skip):
@@ -161,25 +171,26 @@ def obligations(enc, spec, order, sst, tag, skip):
         return is_skipped(var, skip)
 
     for var in order:
-        shape, loc, scale = spec[var]
+        shape, loc, scale = spec[var][:3]
+        kind = spec[var][3] if len(spec[var]) > 3 else "normal"
         if skipped(var):
             def g_skip(V, var=var):
                 return [], all_eq(V.out["out"][f"{var}_value"], sst[f"{var}_value"])
             obs.append(Obligation(f"simulate[{tag}]: skipped variable {var} keeps its value", [enc], g_skip, signature=f"{tag}:skip:{var}"))
             continue
 
-        def g_draw(V, var=var, shape=shape, loc=loc, scale=scale):
+        def g_draw(V, var=var, shape=shape, loc=loc, scale=scale, kind=kind):
             nv = newvals(V)
             got = V.out["out"][f"{var}_value"]
             n = int(np.prod(shape, dtype=int))
             alts = []
             for d in V.I.draws:
-                if d["kind"] != "normal" or int(np.prod(d["shape"], dtype=int)) != n:
+                if d["kind"] != kind or int(np.prod(d["shape"], dtype=int)) != n:
                     continue
                 z = cells(d["out"])
                 alts.append(z3.And(*[c == loc(nv) + scale(nv) * zz for c, zz in zip(cells(got), z)]))
             return [], z3.Or(*alts) if alts else z3.BoolVal(False)
-        obs.append(Obligation(f"simulate[{tag}]: {var} = loc(new ancestors) + scale(new ancestors) * z with z a standard normal draw of its own key",
+        obs.append(Obligation(f"simulate[{tag}]: {var} = loc(new ancestors) + scale(new ancestors) * z with z a standard normal (or, for a uniform prior, standard uniform) draw of its own key",
                               [enc], g_draw, signature=f"{tag}:draw:{var}"))
 
     def g_coh(V):
@@ -212,7 +223,7 @@ def main():
     if chk.tier == "quick":
         plan = [("direct", True, ()), ("via-calc", False, ()), ("via-calc", True, ()), ("diamond", False, ()), ("diamond", True, ("m",)),
                 ("per_obs=False", False, ()), ("two-level+matrix", False, ("a",)), ("direct", False, ("mu_log_prob",)), ("via-calc", False, ("y_var_value",)),
-                ("user-named dist nodes", True, ("mu_prior",)), ("user-named dist nodes", False, ("lik",))]
+                ("user-named dist nodes", True, ("mu_prior",)), ("user-named dist nodes", False, ("lik",)), ("uniform root", False, ()), ("uniform root", True, ("y",))]
     else:
         plan = []
         for h in FAMILY:
